@@ -79,6 +79,8 @@ func mkHandler(id int, b refmodel.Behaviour, log *[]refmodel.Event) rux.HandlerF
 				c.AbortWithStatus(abortCode, "no")
 			case refmodel.SStatus:
 				c.SetStatus(201)
+			case refmodel.SAbortSt200:
+				c.AbortWithStatus(200)
 			case refmodel.SRedispAbort:
 				c.Req.URL.Path = "/inner"
 				c.Router().HandleContext(c)
@@ -109,6 +111,21 @@ func runChain(sh chainShape, table map[byte]refmodel.Behaviour) (obs chainObs, b
 	}
 	g, p, rt := sh.Split[0], sh.Split[1], sh.Split[2]
 	r := rux.New()
+	if sh.Via == "notfound" {
+		// the chain is: n-1 global middleware around the built-in not-found responder (no route matches)
+		regPanic = try(func() {
+			for i := 0; i < n-1; i++ {
+				r.Use(hs[i])
+			}
+		})
+		if regPanic != nil {
+			return
+		}
+		w := httptest.NewRecorder()
+		obs.pv = try(func() { r.ServeHTTP(w, httptest.NewRequest("GET", "/no/such/route", nil)) })
+		obs.events, obs.status, obs.body = log, w.Code, w.Body.String()
+		return
+	}
 	regPanic = try(func() {
 		// global middleware: added one by one (spare capacity in the slice) when there are several
 		for i := 0; i < g; i++ {
